@@ -54,7 +54,7 @@ def nontrivial(trace: List[Dict[str, Any]]) -> bool:
     for ev in trace:
         if ev["e"] == "winddown":
             return False
-        if ev["e"] in ("app_start", "wire", "t_close", "life_recv", "c_connect"):
+        if ev["e"] in ("app_start", "wire", "t_close", "life_recv", "c_connect", "result"):
             return True
     return False
 
@@ -87,6 +87,10 @@ def _runner(name: str):
         from . import worker_env
 
         return worker_env.run_many
+    if name == "wsgi":
+        from . import gen_wsgi
+
+        return gen_wsgi.run_many
     return run.run_many
 
 
@@ -192,6 +196,14 @@ def check(prop: str, tier: str, seed: int, cap: int = 0) -> int:
         all_jobs.extend(jobs)
         all_traces.extend(traces)
     jobs, traces = all_jobs, all_traces
+    # 6'. design conformance: the executions driven along TLC behaviours of H1Conn must be behaviours of
+    # H1Conn (spec/TraceH1.tla).  Advisory: a rejected trace is design drift, not a property violation.
+    from . import design_trace
+
+    conformance = design_trace.check_h1(jobs, traces)
+    for d in conformance["drift"][:5]:
+        print("DESIGN-DRIFT: H1Conn does not explain an execution (family %s, worker %s): %d of %d events matched, next %s"
+              % (d["family"], d["worker"], d["matched_events"], d["of"], json.dumps(d["next_event"])))
     for line, n in sorted(known_hits.items()):
         print("KNOWN-FINDING: property=%s %s  [seen in %d executions]" % (prop, line, n))
     rc = 0
@@ -239,6 +251,12 @@ def check(prop: str, tier: str, seed: int, cap: int = 0) -> int:
                     "closed, lifespan message delivered or connection accepted) before the wind-down" % ", ".join(monitors),
             "design_model_checking": mc_stats,
             "design_deviation_counterexamples": dev_stats,
+            "design_trace_conformance": {
+                "spec": "spec/TraceH1.tla (H1Conn, Dev = CodeDev, logged stimuli/observations, silent ServerNext steps)",
+                "executions_checked": conformance["checked"], "accepted_as_design_behaviours": conformance["accepted"],
+                "drift": [{k: v for k, v in d.items() if k != "job"} for d in conformance["drift"][:20]],
+                "note": "advisory: design drift never decides the property",
+            },
             "stimulus_families": len(fams),
             "events_validated": sum(len(t) for t in traces),
             "known_findings_hit": sorted(known_hits),
